@@ -97,7 +97,11 @@ func c03Observers(c *core.Ctx, res *core.Result) {
 		n, _ := strconv.Atoi(string(b[:10]))
 		return n
 	}
-	verifhook.SetYield(r.U64(), int64([]int{0, 100, 400, 900}[r.Intn(4)]))
+	ypm := []int{0, 100, 400, 900}[r.Intn(4)]
+	if G > 100 {
+		ypm = []int{0, 20}[r.Intn(2)] // thousands of inserts per commit: keep the run short
+	}
+	verifhook.SetYield(r.U64(), int64(ypm))
 	defer verifhook.SetYield(0, 0)
 	var stop atomic.Bool
 	var mu sync.Mutex
